@@ -43,5 +43,8 @@ Lemma markers :
      behaves as one of them *)
   forallb (fun p => behaves_as (policy_name p) p) policies = true /\
   forallb (fun n => existsb (behaves_as n) policies) distinguished_names = true /\
-  F.cbo_default_filter_failures = policy_name PMin.
+  F.cbo_default_filter_failures = policy_name PMin /\
+  (* CBO.fit_surrogate tells the same marker for the failed rows of a checkpoint and tests the policy with the same literal *)
+  nonempty F.fit_surrogate_told = true /\ forallb (String.eqb F.objective_value_failure) F.fit_surrogate_told = true /\
+  forallb (fun s => smem s F.cbo_ignore_literals) F.fit_surrogate_policy_literals = true.
 Proof. vm_compute. repeat split; reflexivity. Qed.
